@@ -328,8 +328,11 @@ def run(tier):
             pairs.append((c, choose(c, "api")))
             if gname != "sizes" and (quick or i % 4 == 0) and c10.text_expressible(c["M"]) and not ("expr_text" in defective and c10.FEATURES["expr"][0](c["M"])):
                 pairs.append((c, choose(c, "pytext")))
-        use = exe_asan if (exe_asan is not None and gname in ("items_exhaustive", "programs", "sizes")) else exe
+        use = exe_asan if (exe_asan is not None and gname in ("items_exhaustive", "sizes")) else exe
         res = c10.replay_cases(use, pairs, maxpar=vlib.NCPU, batch=25 if gname != "sizes" else 1)
+        if exe_asan is not None and gname == "programs":      # I/O of the programs under ASan too; execution is judged on the plain build
+            sub = [({k: v for k, v in c.items() if k != "exec"}, h) for c, h in pairs]
+            pairs, res = pairs + sub, res + c10.replay_cases(exe_asan, sub, maxpar=vlib.NCPU)
         # the same module built from long doubles with other padding bytes: same bytes expected
         ldp = [(c, h) for c, h in pairs if h["ctxs"][0]["org"] == "api" and has_ld(c["M"])][: (200 if quick else 3000)]
         res_ld = c10.replay_cases(exe, ldp, maxpar=vlib.NCPU, pad=0xAB) if ldp else []
